@@ -42,6 +42,7 @@ ASSUMPTIONS.update({
 })
 LEMMAS = {}
 UNVERIFIED = {
+    "C07": ["only the two error exits of the return-type check in eval's frame-pop branch are under contract here (the value a finished call returns stays on the value stack when its type check fails); the step functions are in units restore and steps"],
     "C08": ["that a resumed evaluation continues identically: follows from the stack being equal only if eval_expr is a function of the stack (unverified)",
             "output interleaving; who sets the interrupted flag (nrepl/json session threads)"],
     "C25": ["termination of each eval_expr step (blocking built-ins such as read_line, see C24; loops inside built-ins)",
@@ -71,6 +72,10 @@ SANDBOX_PROGRAMS = [
     'println(string_repr([1, 2, 3].map(fun(x) { while True {} x })))\n',
 ]
 WITNESSES = [
+    {"match": r"evalloop\.eval\.site\[unbound_return_type", "kind": "resume-corpus", "props": ["C07"], "expect": {},
+     "input": [{"what": "a function whose return type hint names no type, resumed", "session": ["fun f(): Nosuch { 1 }", "f()"], "resumes": 3}]},
+    {"match": r"evalloop\.eval\.site\[wrong_return_type", "kind": "resume-corpus", "props": ["C07"], "expect": {},
+     "input": [{"what": "a function returning a value of the wrong type, resumed", "session": ["fun g(): String { 1 }", "g()"], "resumes": 3}]},
     {"match": r"evalloop\.eval\.", "kind": "interrupt-session", "props": ["C08"], "input": INTERRUPT_PROGRAMS, "timeout": 60},
 ] + [
     # C25: a sandboxed run of a non-terminating program must end (limit error) well within the timeout
@@ -221,6 +226,7 @@ def build(tier):
             "assert(top(*env).evalled_values@ =~= snap.last().evalled_values@);\n"
             "assert(top(*env).exprs_to_eval@ =~= snap.last().exprs_to_eval@);\n"
             "assert(same_stack(env.stack.0@, snap));")
+    SAME_RET = "proof { if snap.last().evalled_values@.len() > 0 {\n" + SAME + "\n} }"
     SITES = [
         dict(anchor="return Err(EvalError::Interrupted);", where="before", name="interrupt_restores_step", props={"C08"},
              text=SAME),
@@ -228,6 +234,11 @@ def build(tier):
              text=SAME),
         dict(anchor="return Err(EvalError::ReachedStackLimit(position));", where="before", name="stack_limit_restores_step", props={"C08"},
              text=SAME),
+    ]
+    SITES += [
+        # (the `expect` on the popped return value has already passed, so the value stack was not empty)
+        dict(anchor="return Err(EvalError::Exception(ExceptionInfo {", where="before", nth=0, name="unbound_return_type_keeps_return_value", props={"C07"}, text=SAME_RET),
+        dict(anchor="return Err(EvalError::Exception(ExceptionInfo {", where="before", nth=1, name="wrong_return_type_keeps_return_value", props={"C07"}, text=SAME_RET),
     ]
     PROFILE_LOOP = dict(invariant=[("idx", "__i1 <= env.stack.0@.len()")], decreases="env.stack.0@.len() - __i1")
     u.add_fn(EV, "eval", rules=RULES, contract=Contract(
